@@ -79,6 +79,7 @@ pub struct Eng<S: USet> {
     pub sig: BTreeSet<String>,
     pub cur_sig: String,
     pub quiet: bool,
+    pub force_style: Option<u64>,
 }
 
 pub const NSLOTS: usize = 8;
@@ -159,6 +160,7 @@ impl<S: USet> Eng<S> {
             sig: BTreeSet::new(),
             cur_sig: String::new(),
             quiet: false,
+            force_style: None,
         };
         let m = match mode {
             Mode::Script => "script",
@@ -219,6 +221,7 @@ impl<S: USet> Eng<S> {
             self.emit(&format!("seed {}", seed));
         }
         self.draw_style = self.rng.below(6);
+        self.force_style = None;
     }
     pub fn finish(&mut self) {
         self.begin("end");
@@ -230,7 +233,7 @@ impl<S: USet> Eng<S> {
     }
     /// push scripted draws for the next operation on `slot`
     fn script(&mut self, slot: usize) -> Vec<u64> {
-        self.script_n(slot, 48)
+        self.script_n(slot, 600)
     }
     pub fn script_n(&mut self, slot: usize, n: usize) -> Vec<u64> {
         if self.mode != Mode::Script {
@@ -244,7 +247,16 @@ impl<S: USet> Eng<S> {
                 present = a.into_iter().filter(|&x| x != 0).take(32).collect();
             }
         }
-        let style = if self.rng.chance(1, 5) { self.rng.below(6) } else { self.draw_style };
+        let style = match self.force_style {
+            Some(st) => st,
+            None => {
+                if self.rng.chance(1, 5) {
+                    self.rng.below(6)
+                } else {
+                    self.draw_style
+                }
+            }
+        };
         let mut v = vec![];
         for k in 0..n {
             let d = match style {
@@ -833,7 +845,7 @@ impl<S: USet> Eng<S> {
         let heap = self.slots[i].as_ref().and_then(|s| s.repr().1);
         let mut pick = self.rng.below(16);
         // regimes of small values stay pure most of the time, otherwise every history ends in the plain table
-        let small = matches!(regime, 0 | 1 | 2 | 7 | 8 | 9 | 10);
+        let small = matches!(regime, 0 | 1 | 2 | 7 | 8 | 9 | 10 | 13 | 14);
         if small && matches!(pick, 1 | 5 | 6) && !self.rng.chance(1, 12) {
             pick = 10;
         }
@@ -903,6 +915,8 @@ impl<S: USet> Eng<S> {
                 8 => self.rng.below(200),
                 9 => self.rng.below(500) * 3 + if self.rng.chance(1, 50) { 1 << 16 } else { 0 },
                 10 => self.rng.below(20000),
+                13 => self.rng.below(1500),
+                14 => self.rng.below(700) * 2,
                 11 => {
                     // inline field boundaries
                     let f = [7u64, 8, 10, 12, 15, 19, 21, 25, 30, 31, 40, 61][self.rng.below(12) as usize];
